@@ -32,10 +32,10 @@ theorem uqStep2_rep_congr {s s' : St} {st f : Name} (n : Bool) (id : Id)
   | nil => rfl
   | str v =>
     simp only
-    by_cases hq : quirkEmptyIsNil = true ∧ v = []
-    · simp only [hq, and_self, if_true]
+    by_cases hq : v = []
+    · simp only [hq, if_true]
     · simp only [hq, if_false]
-      cases (if v = [] then none else get v (s.uniq st f)) with
+      cases get v (s.uniq st f) with
       | none => rfl
       | some x => simp only [apply_ite Prod.snd]
 
@@ -149,78 +149,102 @@ theorem allLinkOk_congr {W : List Loc} {s s' : St} (h : Frame W s s') {st f oSt 
 
 /-! ### the inverse link collection preserves what a link collection has established -/
 
-theorem lkInner_inverse_preserves (st f oSt oF : Name) (hd : ¬(st = oSt ∧ f = oF)) (b : Id) (l : List Id)
-    (x : St) (a : Id) (ha : a ∈ l)
-    (h : (∀ a' b', LinkOk x st f oSt oF a' b') ∧ ∀ y ∈ l, x.present st y = true → y ∈ x.setOf oSt b oF) :
+/-- one step of the inverse collection `(oSt.oF ↔ st.f)` at its entity `b`: it may add `b` to the
+    links of an existing `a` that `b` lists -/
+theorem lkInner_inverse_preserves (st f oSt oF : Name) (hd : ¬(st = oSt ∧ f = oF)) (b : Id) (x : St) (a : Id)
+    (hb : x.present oSt b = true)
+    (h : (∀ a' b', LinkOk x st f oSt oF a' b')) (ha : a ∈ x.setOf oSt b oF) :
     (∀ a' b', LinkOk (lkInner oSt oF st f true b x a).1 st f oSt oF a' b') ∧
-    ∀ y ∈ l, (lkInner oSt oF st f true b x a).1.present st y = true → y ∈ (lkInner oSt oF st f true b x a).1.setOf oSt b oF := by
-  obtain ⟨h1, h2⟩ := h
+    ∀ y, y ∈ x.setOf oSt b oF → y ∈ (lkInner oSt oF st f true b x a).1.setOf oSt b oF := by
   rw [lkInner_true_fst]
   split
-  · next hp =>
-    -- the dangling link `b → a` is removed on the other side; `a` does not exist
+  · -- the missing reverse link `a → b` is added
+    have hother : ∀ i, (x.addToSet st a f b).setOf oSt i oF = x.setOf oSt i oF := by
+      intro i
+      rw [addToSet_setOf, if_neg (fun c => hd ⟨c.1.symm, c.2.2.1.symm⟩)]
     constructor
     · intro a' b' hb'
+      have hpres : ∀ s' i, (x.addToSet st a f b).present s' i = x.present s' i := fun s' i => modEnt_present x _ _ _ s' i
+      rw [addToSet_setOf] at hb'
+      unfold LinkOk at h
+      rw [hpres, hasBack_iff, hother]
+      split at hb'
+      · next hc =>
+        rcases mem_sins.1 hb' with rfl | hb'
+        · rw [hc.2.1]; exact ⟨hb, ha⟩
+        · obtain ⟨p1, p2⟩ := h a' b' hb'
+          exact ⟨p1, hasBack_iff.1 p2⟩
+      · obtain ⟨p1, p2⟩ := h a' b' hb'
+        exact ⟨p1, hasBack_iff.1 p2⟩
+    · intro y hy; rw [hother]; exact hy
+  · exact ⟨h, fun _ hy => hy⟩
+
+/-- removing `b`'s links to entities that do not exist does not concern the links of `st.f` -/
+theorem lkRemoveAll_inverse_preserves (st f oSt oF : Name) (hd : ¬(st = oSt ∧ f = oF)) (b : Id) (D : List Id) (x : St)
+    (hD : ∀ a ∈ D, x.present st a = false) (h : ∀ a' b', LinkOk x st f oSt oF a' b') :
+    ∀ a' b', LinkOk (lkRemoveAll oSt oF b D x) st f oSt oF a' b' := by
+  unfold lkRemoveAll
+  induction D generalizing x with
+  | nil => exact h
+  | cons a t ih =>
+    rw [List.foldl_cons]
+    apply ih
+    · intro c hc
+      rw [St.delFromSet, modEnt_present]; exact hD c (List.mem_cons_of_mem _ hc)
+    · intro a' b' hb'
       rw [delFromSet_setOf, if_neg (fun c => hd ⟨c.1, c.2.2⟩)] at hb'
-      obtain ⟨p1, p2⟩ := h1 a' b' hb'
+      obtain ⟨p1, p2⟩ := h a' b' hb'
       refine ⟨by rw [St.delFromSet, modEnt_present]; exact p1, ?_⟩
       rw [hasBack_iff] at p2 ⊢
       rw [delFromSet_setOf]
       split
       · refine mem_sdel.2 ⟨p2, ?_⟩
         rintro rfl
-        rw [present_of_setOf hb'] at hp; cases hp
+        have := hD a' (List.mem_cons_self ..)
+        rw [present_of_setOf hb'] at this
+        cases this
       · exact p2
-    · intro y hy hpy
-      rw [St.delFromSet, modEnt_present] at hpy
-      rw [delFromSet_setOf, if_pos ⟨rfl, rfl, rfl⟩]
-      refine mem_sdel.2 ⟨h2 y hy hpy, ?_⟩
-      rintro rfl
-      rw [hpy] at hp; cases hp
-  · next hp =>
-    have hp' : x.present st a = true := by simpa using hp
-    split
-    · -- the missing reverse link `a → b` is added
-      have hab : a ∈ x.setOf oSt b oF := h2 a ha hp'
-      constructor
-      · intro a' b' hb'
-        have hpres : ∀ s' i, (x.addToSet st a f b).present s' i = x.present s' i := fun s' i => modEnt_present x _ _ _ s' i
-        have hother : ∀ i, (x.addToSet st a f b).setOf oSt i oF = x.setOf oSt i oF := by
-          intro i
-          rw [addToSet_setOf, if_neg (fun c => hd ⟨c.1.symm, c.2.2.1.symm⟩)]
-        rw [addToSet_setOf] at hb'
-        unfold LinkOk at h1
-        rw [hpres, hasBack_iff, hother]
-        split at hb'
-        · next hc =>
-          rcases mem_sins.1 hb' with rfl | hb'
-          · rw [hc.2.1]; exact ⟨present_of_setOf hab, hab⟩
-          · obtain ⟨p1, p2⟩ := h1 a' b' hb'
-            exact ⟨p1, hasBack_iff.1 p2⟩
-        · obtain ⟨p1, p2⟩ := h1 a' b' hb'
-          exact ⟨p1, hasBack_iff.1 p2⟩
-      · intro y hy hpy
-        rw [St.addToSet, modEnt_present] at hpy
-        rw [addToSet_setOf, if_neg (fun c => hd ⟨c.1.symm, c.2.2.1.symm⟩)]
-        exact h2 y hy hpy
-    · exact ⟨h1, h2⟩
 
 /-- running the inverse collection's check in fix mode keeps every link of this collection backed -/
 theorem link_inverse_preserves (st f oSt oF : Name) (hasInv : Bool) (hd : ¬(st = oSt ∧ f = oF)) (x : St)
     (h : ∀ a b, LinkOk x st f oSt oF a b) :
     ∀ a b, LinkOk (linkCheck oSt oF st f hasInv true x).1 st f oSt oF a b := by
-  have hstep : ∀ y b, (∀ a' b', LinkOk y st f oSt oF a' b') →
-      ∀ a' b', LinkOk (lkStep oSt oF st f true y b).1 st f oSt oF a' b' := by
-    intro y b hy
-    unfold lkStep
-    exact (runSteps_inv_mem (lkInner oSt oF st f true b)
-      (fun z => (∀ a' b', LinkOk z st f oSt oF a' b') ∧
-        ∀ w ∈ y.setOf oSt b oF, z.present st w = true → w ∈ z.setOf oSt b oF)
+  have hstep : ∀ y, ∀ b ∈ x.ids oSt, (∀ a' b', LinkOk y st f oSt oF a' b') ∧ (∀ i, y.present oSt i = x.present oSt i) →
+      (∀ a' b', LinkOk (lkStep oSt oF st f true y b).1 st f oSt oF a' b') ∧
+      (∀ i, (lkStep oSt oF st f true y b).1.present oSt i = x.present oSt i) := by
+    intro y b hbid ⟨hy, hpres⟩
+    have hbp : y.present oSt b = true := by
+      rw [hpres]; obtain ⟨e, he⟩ := mem_ids.1 hbid; exact present_of_mem he
+    have hfst : (lkStep oSt oF st f true y b).1 =
+        lkRemoveAll oSt oF b ((y.setOf oSt b oF).filter fun l => !y.present st l)
+          (runSteps (lkInner oSt oF st f true b) (y.setOf oSt b oF) y).1 := by
+      unfold lkStep; simp
+    -- the loop: links stay backed, `b`'s own list is untouched, presence is untouched
+    have hloop := runSteps_inv_mem (lkInner oSt oF st f true b)
+      (fun z => (∀ a' b', LinkOk z st f oSt oF a' b') ∧ (∀ w, w ∈ y.setOf oSt b oF → w ∈ z.setOf oSt b oF) ∧
+        (∀ s' i, z.present s' i = y.present s' i))
       (y.setOf oSt b oF)
-      (fun z a ha hz => lkInner_inverse_preserves st f oSt oF hd b _ z a ha hz)
-      y ⟨hy, fun w hw _ => hw⟩).1
+      (by
+        intro z a ha ⟨hz, hkeep, hp⟩
+        obtain ⟨r1, r2⟩ := lkInner_inverse_preserves st f oSt oF hd b z a (by rw [hp]; exact hbp) hz (hkeep a ha)
+        refine ⟨r1, fun w hw => r2 w (hkeep w hw), ?_⟩
+        intro s' i
+        have hd' : ¬(oSt = st ∧ oF = f) := fun c => hd ⟨c.1.symm, c.2.symm⟩
+        rw [(lkInner_mono oSt oF st f hd' b z a).frame.present]; exact hp s' i)
+      y ⟨hy, fun _ hw => hw, fun _ _ => rfl⟩
+    obtain ⟨l1, _, l3⟩ := hloop
+    rw [hfst]
+    constructor
+    · apply lkRemoveAll_inverse_preserves st f oSt oF hd b _ _ _ l1
+      intro a ha
+      have := (List.mem_filter.1 ha).2
+      rw [l3]; simpa using this
+    · intro i
+      have hd' : ¬(oSt = st ∧ oF = f) := fun c => hd ⟨c.1.symm, c.2.symm⟩
+      rw [(lkRemoveAll_mono oSt oF st f hd' b _ _).frame.present, l3]; exact hpres i
   show ∀ a b, LinkOk (runSteps (lkStep oSt oF st f true) (x.ids oSt) x).1 st f oSt oF a b
-  exact runSteps_inv _ (fun z => ∀ a' b', LinkOk z st f oSt oF a' b') hstep _ x h
+  exact (runSteps_inv_mem _ (fun z => (∀ a' b', LinkOk z st f oSt oF a' b') ∧ (∀ i, z.present oSt i = x.present oSt i))
+    (x.ids oSt) hstep x ⟨h, fun _ => rfl⟩).1
 
 /-! ### units: the procedures of a schema, flattened in execution order -/
 
@@ -271,7 +295,6 @@ def CUnit.Good (s : St) : CUnit → Prop
 
 /-- what the unit needs before it runs -/
 def CUnit.Pre (s : St) : CUnit → Prop
-  | .cons (.unique st f _) => ∀ id, s.evalT st id f ≠ .str []
   | .cons (.setIdx st f) => NodupKeys (s.setx st f)
   | _ => True
 
@@ -303,7 +326,7 @@ theorem CUnit.frame (u : CUnit) (s : St) (hw : u.Wf) (hp : u.Pre s) : Frame u.wr
   | cons c =>
     cases c with
     | unique st f n =>
-      obtain ⟨h1, h2, h3, _⟩ := unique_fix_post st f n s hp
+      obtain ⟨h1, h2, h3, _⟩ := unique_fix_post st f n s
       exact frame_of_ents h1 h2 st f h3
     | setIdx st f => exact (set_fix_post st f s hp).2.1
     | fkIndex st f n fkSt fkF => exact (fkIndex_fix_post st f n fkSt fkF s).1
@@ -315,7 +338,7 @@ theorem CUnit.post (u : CUnit) (s : St) (hw : u.Wf) (hp : u.Pre s) : u.Good (u.r
   | link lc hi => exact (link_fix_post lc.st lc.f lc.oSt lc.oF hi hw s).2.1
   | cons c =>
     cases c with
-    | unique st f n => exact (unique_fix_post st f n s hp).2.2.2
+    | unique st f n => exact (unique_fix_post st f n s).2.2.2
     | setIdx st f => exact (set_fix_post st f s hp).2.2.2
     | fkIndex st f n fkSt fkF => exact (fkIndex_fix_post st f n fkSt fkF s).2
     | fkCons st f n linked => exact (fkCons_fix_post st f n linked s).2
@@ -349,9 +372,7 @@ theorem CUnit.pre_congr (u : CUnit) {W : List Loc} {s s' : St} (h : Frame W s s'
   | link lc hi => trivial
   | cons c =>
     cases c with
-    | unique st f n =>
-      intro id
-      rw [h.evalT st f (hd _ (by simp [CUnit.touch]))]; exact hg id
+    | unique st f n => trivial
     | setIdx st f =>
       show NodupKeys (s'.setx st f)
       rw [h.setx st f (hd _ (by simp [CUnit.touch]))]; exact hg
@@ -392,10 +413,7 @@ theorem CUnit.self_pre (u : CUnit) (s : St) (hw : u.Wf) (hp : u.Pre s) : u.Pre (
   | link lc hi => trivial
   | cons c =>
     cases c with
-    | unique st f n =>
-      intro id
-      show (uniqueCheck st f n true s).1.evalT st id f ≠ _
-      rw [evalT_congr (unique_fix_post st f n s hp).1]; exact hp id
+    | unique st f n => trivial
     | setIdx st f => exact (set_fix_post st f s hp).2.2.1
     | fkIndex st f n fkSt fkF => trivial
     | fkCons st f n linked => trivial
@@ -608,15 +626,13 @@ def SchemaOk (S : Schema) : Prop := S.units.Pairwise CUnit.Compat ∧ ∀ u ∈ 
 
 instance (S : Schema) : Decidable (SchemaOk S) := by unfold SchemaOk; infer_instance
 
-theorem pre_of_wf {S : Schema} {s : St} (hwf : s.WF) (hne : NoEmptyUnique S s) : ∀ u ∈ S.units, u.Pre s := by
+theorem pre_of_wf {S : Schema} {s : St} (hwf : s.WF) : ∀ u ∈ S.units, u.Pre s := by
   intro u hu
   cases u with
   | link lc hi => trivial
   | cons c =>
-    have hc := mem_units_cons hu
-    obtain ⟨sd, hsd, hc'⟩ := List.mem_flatMap.1 hc
     cases c with
-    | unique st f n => exact noEmptyT_of_str (hne sd hsd _ hc')
+    | unique st f n => trivial
     | setIdx st f => exact hwf.setx st f
     | fkIndex st f n fkSt fkF => trivial
     | fkCons st f n linked => trivial
